@@ -59,6 +59,8 @@ def jobs(tier):
             for accs in _assignments(code):
                 if prop == "C07":
                     js.append({"for": prop, "code": code, "accs": accs, "n": True, "todate": True})
+                    if code in ("BMS", "BSM") and len(set(sum(accs, ()))) <= 2:
+                        js.append({"for": prop, "code": code, "accs": accs, "n": True, "todate": True, "off": "shared"})
                     if len(code) <= 3:
                         js.append({"for": prop, "code": code, "accs": accs, "n": False, "todate": False})
                 else:
@@ -67,11 +69,14 @@ def jobs(tier):
                     if len(code) <= 3:
                         # sheet rows in reverse time order: the guard must follow time, not rows
                         js.append({"for": prop, "code": code, "accs": accs, "n": False, "todate": False, "rev": True})
+                    if code in ("BS", "BSB", "BMS", "BSS"):
+                        # an own symbolic UTC offset per transaction: the guard must follow instants, not wall-clock readings
+                        js.append({"for": prop, "code": code, "accs": accs, "n": False, "todate": False, "off": "each"})
     return js
 
 
 def describe(spec):
-    return "%s %s accs=%s%s%s" % (spec["for"], spec["code"], "/".join("".join(map(str, a)) for a in spec["accs"]), " -n" if spec["n"] else "", " to_date" if spec["todate"] else "") + (" rev-rows" if spec.get("rev") else "")
+    return "%s %s accs=%s%s%s" % (spec["for"], spec["code"], "/".join("".join(map(str, a)) for a in spec["accs"]), " -n" if spec["n"] else "", " to_date" if spec["todate"] else "") + (" rev-rows" if spec.get("rev") else "") + (" offset=" + spec["off"] if spec.get("off") else "")
 
 
 def weight(spec):
@@ -83,7 +88,7 @@ def select(prop, spec):
 
 
 def bounds(tier):
-    return {"history_length": "2-3" if tier == "quick" else "2-4", "accounts": "up to 4 (2 exchanges x 2 holders), every assignment of slots to accounts up to renaming, self-transfers included", "to_date (C07)": "any date from 2019-12-30 to 2021-01-01", "amounts/fees": "k*1e-11, k in [1, 1e20] (fees >= 0)", "instants": "microseconds in 2020, ties allowed", "outside": ["mixed UTC offsets", "per-holder totals of the report (C13)", "C08 with a to_date"]}
+    return {"history_length": "2-3" if tier == "quick" else "2-4", "accounts": "up to 4 (2 exchanges x 2 holders), every assignment of slots to accounts up to renaming, self-transfers included", "to_date (C07)": "any date from 2019-12-30 to 2021-01-01", "amounts/fees": "k*1e-11, k in [1, 1e20] (fees >= 0)", "instants": "microseconds in 2020, ties allowed", "utc_offsets": "C07 jobs marked offset=shared: one symbolic offset for all timestamps; C08 jobs marked offset=each: an own symbolic offset per transaction; otherwise UTC", "outside": ["C07 with different UTC offsets inside one history", "per-holder totals of the report (C13)", "C08 with a to_date"]}
 
 
 def assumptions():
@@ -107,7 +112,10 @@ def run(S, spec):
     if spec.get("rev"):
         for i, s in enumerate(slots):
             s["row"] = 10 + (n - 1 - i)
-    h = Hist(S, slots, [2020])
+    if spec.get("off") == "shared":
+        h = Hist(S, slots, [2020], shared_off=S.int("off", -720, 840), shared_sym=True)
+    else:
+        h = Hist(S, slots, [2020], tz=spec.get("off") == "each")
     to_date = None
     if spec["todate"]:
         to_ord = S.int("to", date(2019, 12, 30).toordinal(), date(2021, 1, 1).toordinal())
